@@ -86,7 +86,7 @@ def routing(R, ctx):
     EFF = [r'LogWriter::write$', r'util::eprint_msg$', r'util::eprint_err$', r'FlexiLogger::primary_enabled$', r'PrimaryWriter::write$',
            r'LogLineFilter::write$', r'DeferredNow::new$']
     NI = [r'util::eprint_msg$', r'util::eprint_err$', r'FlexiLogger::primary_enabled$', r'PrimaryWriter::write$', r'DeferredNow::new$']
-    I = FDI(f, effects=EFF, no_inline=NI, loop_k=2, max_steps=10000)
+    I = FDI(f, effects=EFF, no_inline=NI, loop_k=ctx.k(2, 3), max_steps=20000, max_rows=200000)
     rows = I.run(b.path)
     problems = []
     shapes = set()
